@@ -3,6 +3,7 @@ package main
 import (
 	"fmt"
 	"math"
+	"sort"
 	"strconv"
 	"strings"
 
@@ -319,6 +320,25 @@ func genSort(g *hx.Gen) {
 		}
 		g.Emit(sortCase(a))
 	}
+	// short arrays with repeated values (13..96 cells, 2..n/2 distinct values): layouts in which the
+	// partition point, the pivot copies and the probed cells of doPivot coincide are frequent only here
+	for i := 0; i < g.Pick(800, 8000); i++ {
+		n := r.Range(13, 96)
+		k := r.Range(2, n/2)
+		a := make([]int, n)
+		for j := range a {
+			a[j] = r.Intn(k)
+		}
+		if r.Chance(1, 4) { // nearly sorted with repeats
+			sortInts(a)
+			for t := r.Intn(4); t > 0; t-- {
+				x, y := r.Intn(n), r.Intn(n)
+				a[x], a[y] = a[y], a[x]
+			}
+		}
+		g.Emit(sortCase(a))
+	}
+
 	// the largest sizes: 1000 in the quick tier, up to 5000 in the thorough tier
 	large := []int{1000}
 	if g.Thorough() {
@@ -369,3 +389,5 @@ func genSort(g *hx.Gen) {
 	}
 	g.Note(fmt.Sprintf("killer inputs: %d of %d sizes drive the transcribed algorithm into heapSort", reached, len(ks)))
 }
+
+func sortInts(a []int) { sort.Ints(a) }
